@@ -103,6 +103,8 @@ type tableRun struct {
 	rec   *recorder
 	names []string
 	reg   string
+
+	panicNow bool
 }
 
 func (t *tableRun) observe(who string, routes []route, i int) httpd.HandlerFunc {
@@ -122,7 +124,46 @@ func (t *tableRun) observe(who string, routes []route, i int) httpd.HandlerFunc 
 		for _, n := range t.names {
 			rec.vals = append(rec.vals, s.RouteParam(n))
 		}
+		if t.panicNow {
+			panic("handler panic (the caller of ServeHTTP recovers, as net/http does)")
+		}
 	}
+}
+
+// poison: the same request once more, but its handler panics and the panic leaves ServeHTTP (default relay); the
+// harness recovers like net/http's connection goroutine and goes on with the next, judged, request on the same Mux.
+// Nothing of it is recorded: what must be exact is the NEXT request.
+func (t *tableRun) poison(q request) {
+	t.panicNow = true
+	defer func() { t.panicNow = false; recover() }()
+	r := &http.Request{Method: q.meth, URL: &url.URL{Path: q.path}, RequestURI: q.path, Header: http.Header{}}
+	t.mux.ServeHTTP(httptest.NewRecorder(), r)
+}
+
+// resplits: every way of cutting the strings method++pattern and method++cleaned-pattern of the registered routes into
+// (method, path): empty methods, methods that contain '/', paths without leading '/'.  A lookup that identifies a route
+// by anything but the pair (method, path) confuses these with the registered route.
+func resplits(routes []route) []request {
+	seen := map[request]bool{}
+	var res []request
+	for _, r := range routes {
+		var segs []string
+		for _, sg := range strings.Split(r.pat, "/") {
+			if sg != "" {
+				segs = append(segs, sg)
+			}
+		}
+		for _, full := range []string{r.meth + r.pat, r.meth + "/" + strings.Join(segs, "/")} {
+			for i := 0; i <= len(full); i++ {
+				q := request{path: full[i:], meth: full[:i]}
+				if !seen[q] {
+					seen[q] = true
+					res = append(res, q)
+				}
+			}
+		}
+	}
+	return res
 }
 
 func newTable(routes []route) *tableRun {
@@ -196,7 +237,7 @@ func (t *tableRun) serve(q request, sb *strings.Builder) (who string) {
 }
 
 type counters struct {
-	tables, rejected, requests, matched, noroute, bad, withParams, withAny int
+	tables, rejected, requests, matched, noroute, bad, withParams, withAny, poisoned int
 }
 
 const batch = 200
@@ -226,10 +267,15 @@ func runTable(e *hk.Env, routes []route, reqs []request, c *counters) {
 		e.Case("E", head.String(), "0")
 		return
 	}
+	reqs = append(append([]request{}, reqs...), resplits(routes)...)
 	for lo := 0; lo < len(reqs) || lo == 0; lo += batch {
 		hi := min(lo+batch, len(reqs))
 		var sb strings.Builder
-		for _, q := range reqs[lo:hi] {
+		for i, q := range reqs[lo:hi] {
+			if n := lo + i; n%8 == 5 && reqs[n-1].raw == "" {
+				t.poison(reqs[n-1]) // the previous request again, with a panicking handler, before the judged one
+				c.poisoned++
+			}
 			who := t.serve(q, &sb)
 			c.requests++
 			switch {
@@ -328,6 +374,7 @@ func parallelTables(e *hk.Env, tables [][]route, reqs []request, total *counters
 			total.bad += c.bad
 			total.withParams += c.withParams
 			total.withAny += c.withAny
+			total.poisoned += c.poisoned
 			mu.Unlock()
 		}()
 	}
@@ -378,7 +425,8 @@ func run(e *hk.Env) error {
 	fixedPaths := []string{"", "/", "*", "x", "//", "///", "/a", "/a/", "/a//", "a", "Xa", "/a/b", "/a/b/", "/a//b", "/a/c/d//e/", "/u/1/2/x",
 		"/u/1/2", "/u/1", "/u/1/", "/u//", "/olead/z", "nolead/z", "/s/t/u", "/s/", "/s", "/:x/b", "/*", "/%2F", "/a/\x00", "/\xff/b", "/:param", "/:any", "/get", "/a/get", "/a//get",
 		"/1/2", "/1", "/1/2/3", "/*x", "/**", "/a*", "/a:b", "/a:b/c", "/zz", "/a/*x/b", "/a/**", "/a/q/r", "/x", "/:any/r/s", "/q/w"}
-	fixedMeths := []string{"GET", "HEAD", "POST", "PUT", "PATCH", "DELETE", "CONNECT", "OPTIONS", "TRACE", "*", "", "BOGUS", "get", "/get"}
+	fixedMeths := []string{"GET", "HEAD", "POST", "PUT", "PATCH", "DELETE", "CONNECT", "OPTIONS", "TRACE", "*", "", "BOGUS", "get", "/get",
+		"G", "GE", "GET/", "GET/a", "/", "/*", "GET ", "\x00", "*GET", "\xff\xfe"}
 	fr := cross(fixedPaths, fixedMeths)
 	for _, t := range fixed {
 		runTable(e, t, fr, &total)
@@ -628,6 +676,12 @@ func run(e *hk.Env) error {
 			m := allMeths[rr.Intn(len(allMeths))]
 			if rr.Intn(10) == 0 {
 				m = []string{"", "BOGUS", "get"}[rr.Intn(3)]
+			} else if rr.Intn(12) == 0 { // an arbitrary short byte string
+				b := make([]byte, rr.Intn(4))
+				for x := range b {
+					b[x] = byte(rr.Intn(256))
+				}
+				m = string(b)
 			}
 			qs = append(qs, request{p, m, ""})
 		}
@@ -646,6 +700,7 @@ func run(e *hk.Env) error {
 	e.Stats["requests_forbidden_outcome"] = total.bad
 	e.Stats["matched_with_param_value"] = total.withParams
 	e.Stats["matched_with_any_value"] = total.withAny
+	e.Stats["requests_preceded_by_a_panicking_request_on_the_same_mux"] = total.poisoned
 	e.Stats["exhaustive"] = true
 
 	// a few samples for the evidence file
